@@ -2,6 +2,26 @@ mod buf_ring;
 mod recv_helper;
 mod send_buffers;
 
+/// Verification hook: the send buffer bookkeeping, driven without a ring
+#[cfg(feature = "verif-hooks")]
+pub mod verif_hooks {
+    pub use super::send_buffers::{ResponseType, SendBuffers};
+
+    /// Index of the buffer the entry was prepared in, or which error came back
+    pub fn prepare(
+        send_buffers: &mut SendBuffers,
+        send_to_ipv4_socket: bool,
+        response: aquatic_udp_protocol::Response,
+        addr: aquatic_common::CanonicalSocketAddr,
+    ) -> Result<u64, &'static str> {
+        match send_buffers.prepare_entry(send_to_ipv4_socket, response, addr) {
+            Ok(entry) => Ok(entry.get_user_data()),
+            Err(super::send_buffers::Error::NoBuffers(_)) => Err("no-buffers"),
+            Err(super::send_buffers::Error::SerializationFailed(_)) => Err("serialization-failed"),
+        }
+    }
+}
+
 use std::cell::RefCell;
 use std::collections::VecDeque;
 use std::net::SocketAddr;
